@@ -45,14 +45,24 @@ def blocks_of(rec: Rec, ending: str = "\n", opener: str = ";") -> List[List[str]
     return out
 
 
-def machine_for(pre, known=(True, True, True)) -> RefMachine:
+def machine_for(pre, rec=None) -> RefMachine:
     """Reference machine agreeing with the pre-state.
 
-    ``known[i]`` says whether the machine knows axis i; a known axis has the
-    builder's coordinate (invariant I1), which must then not be None.
+    Symbolic mode: constructed directly; ``pre['mknown'][i]`` says whether the
+    machine knows axis i, a known axis has the builder's coordinate (I1).
+    Concrete replay: obtained by interpreting the G-code the public set-up
+    emitted; Unreachable if that does not give the requested knowledge flags.
     """
+    if not MODE.symbolic and rec is not None:
+        m = RefMachine(None)
+        m.run_text(rec.setup_text, pre["line_ending"])
+        for a, k, v in zip("XYZ", pre["mknown"], pre["pos"]):
+            want_known = k and v is not None
+            if (m.pos[a] is not None) != want_known:
+                raise Unreachable(f"machine knowledge of {a} is {m.pos[a]!r}, wanted known={want_known}")
+        return m
     m = RefMachine(tokens())
-    for a, k, v in zip("XYZ", known, pre["pos"]):
+    for a, k, v in zip("XYZ", pre["mknown"], pre["pos"]):
         m.pos[a] = v if (k and v is not None) else None
     m.relative = bool(pre["relative"])
     m.tool_on = pre["tool"] is not None
